@@ -57,6 +57,16 @@ CHECKS = {
              "hand-over, and seeded / explicit-proposal runs are executed twice and must coincide.",
         note="integer-lattice data; costs are exact integers; if the DEBUG records are reworded the check degrades to sweep granularity (reported in evidence), never to a false alarm",
         ref="6/C09"),
+    "C10": dict(
+        technique="TLA+ specs Assign.tla/Partition.tla (loop-level transcriptions with inductive invariants) model-checked with TLC; spec->code replay plus TLC trace validation (Trace_Assign/Trace_Partition)",
+        text="TLC checks the sweep / per-frame assignment branches, find_cluster_centers, the subtract-lengths loop of partition_indices "
+             "(loop variables as state), partition_list, ClusterResult.partition and compute_batches against their definitions "
+             "(AssignExact, CenterFinderMinimal, PairCorrect, PartitionRoundTrip, SquareIffEqualLengths, NoEmptyBatch, ...) and emits "
+             "definition-level expectations for every input in scope, which are replayed into the real functions in several dtype / "
+             "container forms; KCenters.fit().predict(), compute_batches and (thorough) batch_reassign on tiny mdtraj trajectories are "
+             "bound by trace validation.",
+        note="exhaustive within <=4 trajectories / total <=8 frames, <=3 centers, 1-D 0..5 and 3x3 grid; ties may go to any nearest center; mdtraj part judged against a recorded rmsd table (1e-3 nm)",
+        ref="6/C10"),
     "C12": dict(
         technique="TLC trace validation (MLE.tla) of recorded runs of both estimator implementations on TLC-enumerated inputs",
         text="Every strongly connected count matrix enumerated by TLC in scope (plus seeded random real-valued and strongly "
@@ -67,6 +77,46 @@ CHECKS = {
              "agreement of the two implementations. A verdict per trace names the failing clause.",
         note="relation tolerances 1e-4 (32-bit integer budget); dominance is checked against the transpose estimate and <=7 perturbed competitors plus the exact stationarity certificate, not against all reversible matrices; log-likelihood numbers come from the projection",
         ref="6/C12"),
+    "C14": dict(
+        technique="TLA+ specs KCentersMPI.tla / StripedOps.tla model-checked with TLC over all arrival orders at collectives; replay on a simulated communicator under several schedules; TLC validation of reassembled states and of the communicator log",
+        text="TLC explores every arrival order of R ranks at every collective of the distributed k-centers program and checks that the "
+             "reassembled state refines the serial algorithm on the concatenated data (tie-free), is self-consistent otherwise, that "
+             "all ranks agree, nobody is left waiting in a collective, and that local<->global index maps are bijections; StripedOps.tla "
+             "does the same for assemble_striped_array, striped max/mean and randind. Every TLC-enumerated case is executed by the real "
+             "kcenters(mpi_mode=True)/hybrid(mpi_mode=True)/kmedoids MPI warm start + reassembly routines on R simulated ranks under 3 "
+             "arrival schedules (ops: all R! orders) and compared with the serial state TLC computed; reassembled states are validated by "
+             "Trace_Cluster.tla (self-consistent, k constant, cost never worse); the communicator's log is validated against "
+             "Trace_Collectives.tla; striped loaders run against real HDF5/npy files with strides.",
+        note="ranks are simulated threads with rendezvous collectives (no MPI library in the sandbox); R<=3 (quick) / 4 (thorough), every rank owns >=1 trajectory; nothing is claimed about mpi4py marshalling",
+        ref="6/C14"),
+    "C16": dict(
+        technique="TLA+ spec MSMObj.tla (object lifecycle with stored vs given configuration) model-checked with TLC + spec->code replay incl. save/load; spectral part by TLC trace validation (Spectrum.tla)",
+        text="TLC checks ConfigStored / FitIsPipeline / RoundTrip / MappingMonotone / TrimmedConnected on the lifecycle New->Fit->Save->Load "
+             "and emits for every (assignments, lag, builder, trim, sliding_window, max_n_states) the admissible pipeline results as exact "
+             "rationals; the real MSM object is compared with them, with the real function pipeline (bitwise, also for mle and a callable "
+             "method) and round-tripped through save/load. Outputs of eigenspectrum / eq_probs / implied_timescales / synthetic_ensemble on "
+             "TLC-enumerated chains are validated by TLC against eigen-equations, stationarity, trace, -lag/ln(lambda) on rational "
+             "eigenvalues (ln table) and exact rational propagation.",
+        note="assignment sets <=2 trajectories, length <=3..5; spectral relations at 1e-4..1e-6 (timescales 1e-2) because of 32-bit integers; eigenvalues of non-reversible chains only ordered",
+        ref="6/C16"),
+    "C19": dict(
+        technique="TLA+ heap/purity model (Purity.tla) over a routine table extracted from the current source, model-checked with TLC; TLC-enumerated call histories replayed under a poisoning numpy allocator",
+        text="harness/extract/masked_sites.py lists every masked element-wise call and uninitialised allocation of the current source; TLC "
+             "decides by self-composition over all masks and heap histories at which sites a result can read uninitialised cells. TLC then "
+             "enumerates histories (poison pattern, <=2 prior calls, 1/2/4/16 threads) x 54 routines x argument sets; each is replayed in "
+             "a worker process whose numpy allocator fills fresh blocks with the pattern, and result bits and argument bits are compared "
+             "with a clean single-threaded process.",
+        note="heap observed through numpy's allocator only; OpenMP interleavings are the runtime's; routine alphabet and argument sets are finite (harness/purity_routines.py)",
+        ref="6/C19"),
+    "C20": dict(
+        technique="TLA+ specs Rotamer.tla (definition-level circular-interval machine in lockstep with the transcribed gate logic) and Transitions.tla, model-checked with TLC; spec->code replay of TLC-generated walks",
+        text="TLC checks ImplMatchesDef on every (basin, angle) of a 1-degree grid for the library's boundary sets and every accepted buffer, "
+             "plus ValidState, ZeroBufferIsBinning, Hysteresis, ExitRebins, FirstIsBasin, and emits all walks of length <=3 over near-gate "
+             "angles plus simulated long walks with the expected state sequences, which are replayed through rotamer._rotamers (three input "
+             "forms) and the phi/psi/chi callers; Transitions.tla gives the per-row first-difference definition and every state sequence "
+             "in scope is replayed through disorder.transitions (1-D, 2-D, ragged).",
+        note="angles on a half-degree grid that avoids gate values; boundary sets [0,180,360], [0,160,360], [0,120,240,360]",
+        ref="6/C20"),
 }
 
 ENGINES = [
